@@ -344,6 +344,7 @@ def apalache(ctx, tla_text, modname, *, inv="Ok", timeout=900, name=None, extra_
     t = time.time()
     e = dict(os.environ)
     e.pop("JAVA_TOOL_OPTIONS", None)
+    e["JVM_ARGS"] = "-Xmx4g -Xss64m"          # several Apalache processes run side by side
     try:
         p = subprocess.run(cmd, cwd=d, env=e, capture_output=True, text=True, timeout=timeout)
     except subprocess.TimeoutExpired:
